@@ -63,7 +63,11 @@ func (g *G) size(label string, small int) int {
 	return g.intn(label, 0, small)
 }
 
-var EnvNames = []string{"FOO", "BAR", "BAZ", "PATH", "HOME", "CI", "A", "B", "C", "DEPLOY", "lower", "Mixed"}
+var EnvNames = []string{"FOO", "BAR", "BAZ", "PATH", "HOME", "CI", "A", "B", "C", "DEPLOY", "lower", "Mixed",
+	// names a real job environment holds
+	"BUILDKITE", "BUILDKITE_COMMIT", "BUILDKITE_BRANCH", "BUILDKITE_SHELL", "BUILDKITE_BUILD_PATH", "BUILDKITE_AGENT_ACCESS_TOKEN",
+	"BUILDKITE_PLUGINS_ENABLED", "BUILDKITE_COMMAND_EVAL", "BUILDKITE_HOOKS_PATH", "BUILDKITE_JOB_ID", "BUILDKITE_REPO", "BUILDKITE_PIPELINE_SLUG",
+	"LD_PRELOAD", "GIT_SSH_COMMAND", "SHELL", "USER", "TERM", "_", "BASH_ENV", "ENV"}
 
 func (g *G) EnvName(label string) string {
 	if g.intn(label+"kind", 0, 3) == 0 {
